@@ -35,9 +35,13 @@ TRUSTED = ['Coq 8.16.1 kernel (coqc; coqchk in the thorough tier)',
            'harness/props/c08.py: program runner on real objects, byte snapshots, step-by-step documentation oracle',
            'the sampling regime of the real objects (pixel scale 1, finite focal length, small centred arrays) under '
            'which nothing but the types decides whether a step is accepted']
-ASSUMPTIONS = ['wavefronts and planes share one pixel scale, wavefronts have a finite focal length and array data '
-               '(otherwise lentil refuses steps for reasons that are not plane types: ValueError on inconsistent '
-               'pixel scales etc.)',
+ASSUMPTIONS = ['sampling regimes: the wavefronts of one history share a pixel scale S in {1, 2, (1,2)} and a wavelength in '
+               '{1, 0.5}; focal lengths 8*max(S)^2/wl (x2), propagations ask for S*oversample (integer FFT grids); planes '
+               'carry no pixel scale, S, or - flagged mism - another value; multiplication-only histories also run on '
+               '"loose" wavefronts (default focal length, optical wavelength, 6x5 data, pixel scale possibly undefined)',
+               'a permitted product of differently sampled operands (lentil: ValueError) is C07\'s clause, not a '
+               'plane-type rule: the documented machine repeats the implementation there, the oracle accepts the '
+               'refusal or the documented type; a FORBIDDEN cell must be TypeError whatever the sampling',
                'propagate_fft refusing a wavefront with fitted tilt (NotImplementedError) is implementation-defined: '
                'the documentation tables do not mention it; model parameter observed_fft_refuses_tilt, the oracle '
                'accepts either behaviour',
@@ -95,17 +99,28 @@ def _doc():
 #                                                           only: what a successful step may do to its operand
 #                                                           is not pinned by C08, so the model is not asked)
 #   sv                     construction variant of the first wavefront
+#   scale, wl, loose       sampling regime of all wavefronts of the history (gen_ptype.py): pixel scale 1 | 2 |
+#                          [1, 2] (| null when loose), wavelength, loose = default focal length / optical
+#                          wavelength / 6x5 data (multiplications only)
+#   a plane spec may carry a 6th element mism = true: the plane is given a pixel scale different from the
+#   wavefronts' (documented: a forbidden cell is TypeError all the same; a permitted one is not a plane-type
+#   matter - lentil refuses it with ValueError, the oracle accepts that refusal or the documented type)
 def _norm(c, o):
-    """-> (kind, name, variant, clip, pool index or None, copy, ptype override or None)"""
+    """-> (kind, name, variant, clip, pool index or None, copy, ptype override or None, mism)"""
     if o[0] == 'pool':
         sp = c['pool'][o[1]]
         return (sp[0], sp[1], sp[2], bool(sp[3]), o[1], bool(o[2]) if len(o) > 2 else False,
-                sp[4] if len(sp) > 4 else None)
+                sp[4] if len(sp) > 4 else None, bool(sp[5]) if len(sp) > 5 else False)
     if o[0] in ('mulp', 'mulc'):
-        return (o[0], o[1], o[2], bool(o[3]) if len(o) > 3 else False, None, False, o[4] if len(o) > 4 else None)
+        return (o[0], o[1], o[2], bool(o[3]) if len(o) > 3 else False, None, False, o[4] if len(o) > 4 else None,
+                bool(o[5]) if len(o) > 5 else False)
     if o[0] == 'back':
-        return ('back', o[1], 0, False, None, False, None)
-    return (o[0], o[1], o[2] if o[0] == 'prop' else (o[2], o[3] if len(o) > 3 else 0), False, None, False, None)
+        return ('back', o[1], 0, False, None, False, None, False)
+    return (o[0], o[1], o[2] if o[0] == 'prop' else (o[2], o[3] if len(o) > 3 else 0), False, None, False, None, False)
+
+
+def _reg(c):
+    return gen_ptype.canon_reg(c.get('scale', 1), c.get('wl', 1.0), c.get('loose', False))
 
 
 def _overrides():
@@ -116,7 +131,14 @@ def _overrides():
     return _cache['overrides']
 
 
-def _rand_plane(rng, classes_ok, p_clip=0.08):
+def _rand_plane(rng, classes_ok, p_clip=0.08, p_mism=0.12):
+    sp = _rand_plane0(rng, classes_ok, p_clip)
+    if rng.random() < p_mism:
+        sp = (sp + [None])[:5] + [True]
+    return sp
+
+
+def _rand_plane0(rng, classes_ok, p_clip=0.08):
     clip = rng.random() < p_clip
     if rng.random() < 0.42:
         kind, name = 'mulp', rng.choice(PTYPES)
@@ -152,16 +174,29 @@ def generate(rng, tier):
               [('prop', m, False, None) for m in METHODS]
     states = [(w, b) for w in WTYPES for b in BODIES]
 
-    def mk(kind, name, clip, po=None):
+    def mk(kind, name, clip, po=None, mism=False):
         v = rng.randrange(gen_ptype.n_variants(kind, name, clip))
         if kind == 'prop':
             return ['prop', name, v]
-        return [kind, name, v, clip] if po is None else [kind, name, v, clip, po]
+        return [kind, name, v, clip, po, True] if mism else [kind, name, v, clip] if po is None else [kind, name, v, clip, po]
+
+    regimes = [{'scale': list(sc) if isinstance(sc, tuple) else sc, 'wl': wl} for sc, wl, _ in gen_ptype.STRICT]
+    loose = [{'scale': list(sc) if isinstance(sc, tuple) else sc, 'wl': wl, 'loose': True} for sc, wl, _ in gen_ptype.LOOSE]
+
+    def regime(i, mul_only=False, mism=False):
+        if mul_only and i % 3 == 2:
+            lo = [r for r in loose if not (mism and r['scale'] is None)]
+            return dict(lo[(i // 3) % len(lo)])
+        return dict(regimes[i % len(regimes)])
 
     # 1. every single step, exhaustively
+    n = 0
     for (w, b) in states:
         for kind, name, clip, po in all_ops:
-            yield {'op': 'program', 'start': w, 'body': b, 'pool': [], 'ops': [mk(kind, name, clip, po)]}
+            for mism in ((False, True) if kind != 'prop' else (False,)):
+                n += 1
+                yield dict(regime(n, kind != 'prop' or w == 'none', mism), op='program', start=w, body=b, sv=n % 2, pool=[],
+                           ops=[mk(kind, name, clip, po, mism)])
     # 2. every plane kind as ONE long-lived object used on wavefronts of two different types (both orders),
     #    directly, through copy(), and once more on the first type
     for kind, name, clip, po in planes:
@@ -172,20 +207,24 @@ def generate(rng, tier):
                 if w1 == w2:
                     continue
                 for cp in (False, True):
-                    yield {'op': 'program', 'start': w1, 'body': 'plain', 'pool': [mk(kind, name, clip, po)],
-                           'ops': [['pool', 0, False], ['fresh', w2, rng.choice(BODIES), rng.randrange(2)],
-                                   ['pool', 0, cp], ['fresh', w1, 'plain', 0], ['pool', 0, cp]]}
+                    n += 1
+                    yield dict(regime(n, True), op='program', start=w1, body='plain', pool=[mk(kind, name, clip, po)],
+                               ops=[['pool', 0, False], ['fresh', w2, rng.choice(BODIES), rng.randrange(2)],
+                                    ['pool', 0, cp], ['fresh', w1, 'plain', 0], ['pool', 0, cp]])
     # 3. every two-step program over the claimed operations (thorough), a sample of them (quick)
     claimed = [o for o in all_ops if o[1] not in BROKEN]
     pairs = [(s, a, b) for s in states for a in claimed for b in claimed]
     pairs = rng.sample(pairs, 300 if tier != 'thorough' else 6000)
     for (w, bd), a, b in pairs:
-        yield {'op': 'program', 'start': w, 'body': bd, 'pool': [], 'ops': [mk(*a), mk(*b)]}
+        n += 1
+        yield dict(regime(n), op='program', start=w, body=bd, pool=[],
+                   ops=[mk(*a, mism=a[0] != 'prop' and rng.random() < 0.15), mk(*b, mism=b[0] != 'prop' and rng.random() < 0.15)])
     # 3b. one wavefront object fanned out to two steps: [a, back to the operand, b]
     fan = [(w, a, b) for w in WTYPES for a in claimed for b in claimed]
     fan = rng.sample(fan, 200 if tier != 'thorough' else 2000)
     for w, a, b in fan:
-        yield {'op': 'program', 'start': w, 'body': 'plain', 'pool': [], 'ops': [mk(*a), ['back', 1], mk(*b)]}
+        n += 1
+        yield dict(regime(n), op='program', start=w, body='plain', pool=[], ops=[mk(*a), ['back', 1], mk(*b)])
     # 4. random programs; two thirds of them draw their planes from a pool of long-lived objects
     n, maxlen = (5000, 40) if tier == 'thorough' else (1000, 12)
     for i in range(n):
@@ -199,8 +238,8 @@ def generate(rng, tier):
             for _ in range(rng.randint(1, 3)):
                 ops.insert(rng.randrange(1, len(ops) + 1), ['back', rng.randint(1, 3)])
         t = rng.random()
-        yield {'op': 'program', 'start': rng.choice(WTYPES), 'body': 'tilted' if t < 0.2 else 'empty' if t < 0.3 else 'plain',
-               'sv': rng.randrange(2), 'pool': pool, 'ops': ops}
+        yield dict(regime(rng.randrange(6)), op='program', start=rng.choice(WTYPES),
+                   body='tilted' if t < 0.2 else 'empty' if t < 0.3 else 'plain', sv=rng.randrange(2), pool=pool, ops=ops)
 
 
 def classify(c):
@@ -220,15 +259,15 @@ def encode(c):
     classes = _classes()
     out = [1, WTYPES.index(c['start']), BODIES.index(c['body']), len(c['ops'])]
     for o in c['ops']:
-        kind, name, v, clip, _pi, _cp, po = _norm(c, o)
+        kind, name, v, clip, _pi, _cp, po, mism = _norm(c, o)
         if kind == 'back':
             return None
         if kind == 'mulp':
-            out += [0, PTYPES.index(name), int(clip)]
+            out += [0, PTYPES.index(name), int(clip) + 2 * int(mism)]
         elif kind == 'mulc':
             if name not in classes:
                 return None
-            out += [1, classes.index(name), int(clip) + 2 * (0 if po is None else 1 + PTYPES.index(po))]
+            out += [1, classes.index(name), int(clip) + 2 * int(mism) + 4 * (0 if po is None else 1 + PTYPES.index(po))]
         elif kind == 'prop':
             out += [2, METHODS.index(name), 0]
         else:
@@ -294,15 +333,17 @@ def run_impl(c):
     c.setdefault('pool', [])
     if 'body' not in c:                      # older corpus format
         c['body'] = 'tilted' if c.get('tilted') else 'plain'
-    w = gen_ptype.build_wavefront(lentil, c['start'], c['body'], c.get('sv', 0))
+    reg = _reg(c)
+    w = gen_ptype.build_wavefront(lentil, c['start'], c['body'], c.get('sv', 0), reg)
     hist = []
-    pool = [gen_ptype.build_plane(lentil, sp[0], sp[1], sp[2], bool(sp[3]), sp[4] if len(sp) > 4 else None)
+    pool = [gen_ptype.build_plane(lentil, sp[0], sp[1], sp[2], bool(sp[3]), sp[4] if len(sp) > 4 else None, reg,
+                                  bool(sp[5]) if len(sp) > 5 else False)
             for sp in c['pool']]
     trace = []
     with warnings.catch_warnings():
         warnings.simplefilter('ignore')
         for o in c['ops']:
-            kind, name, v, clip, pi, cp, po = _norm(c, o)
+            kind, name, v, clip, pi, cp, po, mism = _norm(c, o)
             entry = {'before': _state(w)}
             hist.append(w)
             if kind == 'back':
@@ -311,16 +352,16 @@ def run_impl(c):
                 trace.append(entry)
                 continue
             if kind == 'fresh':
-                w = gen_ptype.build_wavefront(lentil, name, v[0], v[1])
+                w = gen_ptype.build_wavefront(lentil, name, v[0], v[1], reg)
                 entry['yields'] = _state(w)
                 trace.append(entry)
                 continue
             if kind == 'prop':
                 pl = None
-                fn = (lambda ww, name=name, v=v: gen_ptype.do_propagate(lentil, name, ww, v))
+                fn = (lambda ww, name=name, v=v: gen_ptype.do_propagate(lentil, name, ww, v, reg))
             else:
                 if pi is None:
-                    pl = gen_ptype.build_plane(lentil, kind, name, v, clip, po)
+                    pl = gen_ptype.build_plane(lentil, kind, name, v, clip, po, reg, mism)
                 else:
                     pl = pool[pi].copy() if cp else pool[pi]
                 entry['plane_ptype'] = str(pl.ptype)
@@ -381,7 +422,7 @@ def _failures(c, impl):
         out.append((len(tr) - 1, 'not-a-wavefront', f'step {len(tr) - 1} did not return a Wavefront: {tr[-1].get("yields")}'))
     cur = [c['start'], c['body']]
     for i, e in enumerate(tr):
-        kind, name, v, clip, pi, cp, po = _norm(c, c['ops'][i])
+        kind, name, v, clip, pi, cp, po, mism = _norm(c, c['ops'][i])
         if e['before'] != cur:
             out.append((i, 'state', f'step {i}: wavefront state {e["before"]} is not the state the previous step left ({cur})'))
         if kind == 'back':
@@ -419,7 +460,8 @@ def _failures(c, impl):
             d = doc['prop'][(name, wt)]
         how = '' if pi is None else f' [pool object {pi}{", copy()" if cp else ""}, used before in this history]' \
             if any(_norm(c, o)[4] == pi for o in c['ops'][:i]) else f' [pool object {pi}{", copy()" if cp else ""}]'
-        what = f'step {i} {kind} {name}{"" if po is None else "(ptype=" + po + ")"}{how} on a {wt} wavefront ({e["before"][1]})'
+        what = f'step {i} {kind} {name}{"" if po is None else "(ptype=" + po + ")"}{how}' \
+               f'{" with a different pixel scale" if mism else ""} on a {wt} wavefront ({e["before"][1]})'
         if 'raises' in e:
             if e['kept'] != e['before']:
                 out.append((i, 'kept', f'{what}: refused ({e["raises"]}) but the wavefront state changed '
@@ -432,6 +474,8 @@ def _failures(c, impl):
                         and e['raises'] == 'NotImplementedError')
             if fft_tilt:
                 pass                         # implementation-defined refusal of fitted tilt
+            elif d is not None and mism and e['raises'] == 'ValueError':
+                pass                         # permitted cell, inconsistent sampling: not a plane-type matter (C07)
             elif d is not None:
                 out.append((i, 'refused', f'{what}: raised {e["raises"]}, documented result type {d}'))
             elif e['raises'] != 'TypeError':
